@@ -9,7 +9,7 @@ META = {
     "category": "proof",
     "text": "Kernel-checked theorems over every reachable state of the reloader protocol model (any number of acquiring, requesting and fast-reload-switching threads, any interleaving of the atomic steps, creator callbacks that issue requests / switch fast reload / fail, freshness callback): a request that returned before an acquire locked is served by the environment that acquire hands out (creator started or templates cleared after the flag was set); no step replaces, rebuilds or clears the environment while a guard is held; every creator call or clear is caused by its own observation and the flag is observed true at most once per request; a request arriving while the creator runs keeps the flag up and the next acquire rebuilds. The model is tied to /repo by replaying model-enumerated schedules (all interleavings at the hook points for the small boxes, eager-return-reduced or sampled for 3x3) on the real code and comparing the whole observation (arrival point of every step, generation and loader-call number seen through every guard, creator calls with their step), plus the property itself evaluated on the observed history.",
     "design_ref": "DESIGN.md §3 C20",
-    "level_note": "Trusted: Lean kernel; hand transcription of acquire_env/request_reload/should_reload/prepare_and_mark_reload/keep_reload_pending/set_fast_reload/set_callback into MJ/Model/Reloader.lean, tied three ways: (a) the per-function sequence of shared accesses (locks, flag/fast/callback reads and writes, creator, clear, hand-out) is re-extracted from lib.rs on every run and proved equal to the sequence the model's steps assume (MJ.C20.accesses_as_modelled; regex extractor lib/tables/c20.py is trusted), so a new access anywhere breaks the tie even where no hook sits; (b) schedule replay at hook granularity (every notifier-lock acquisition of acquire_env except the re-arm after a failed creator is preceded by a hook); (c) the property evaluated on the observed history. The fs-watcher closure is proved to perform request_reload's critical sections (fs_callback_is_request) and exercised with real file changes only in the thorough tier (smoke test). Not covered: a PANICKING creator (outside C20's statement): the panic propagates out of acquire_env and poisons the cached_env mutex, every later acquire_env panics on lock().unwrap() (recorded under coverage.info, the harness survives it); in full-reload mode without persistent_watch the fs watcher is dropped before the creator runs and only exists again once the creator calls watch_path, so file changes in that window produce no notification at all (the creator must register before it reads).",
+    "level_note": "Trusted: Lean kernel; hand transcription of acquire_env/request_reload/should_reload/prepare_and_mark_reload/keep_reload_pending/set_fast_reload/set_callback into MJ/Model/Reloader.lean, tied three ways: (a) the per-function sequence of shared accesses (locks, flag/fast/callback reads and writes, creator, clear, hand-out) is re-extracted from lib.rs on every run and proved equal to the sequence the model's steps assume (MJ.C20.accesses_as_modelled; regex extractor lib/tables/c20.py is trusted), so a new access anywhere breaks the tie even where no hook sits; (b) schedule replay at hook granularity (every notifier-lock acquisition of acquire_env except the re-arm after a failed creator is preceded by a hook); (c) the property evaluated on the observed history. The fs-watcher closure is proved to perform request_reload's critical sections (fs_callback_is_request) and exercised with real file changes only in the thorough tier (smoke test). A PANICKING creator is a third creator outcome in model, replay and oracle: the panic propagates out of acquire_env without re-arming the flag and poisons the cached_env mutex, every later acquire_env panics on lock().unwrap() (theorem panic_never_serves_stale: no guard is handed out after a creator panic; the example next to it shows that a lock() that recovers from the poison would hand out the stale environment; the table item records how every lock() result is consumed). That the reloader is unusable after a creator panic is outside C20's statement and only recorded (coverage.info). Not covered: in full-reload mode without persistent_watch the fs watcher is dropped before the creator runs and only exists again once the creator calls watch_path, so file changes in that window produce no notification at all (the creator must register before it reads).",
 }
 
 NPROC = 8
@@ -26,7 +26,7 @@ def parse_cfg(cfg):
         elif t in ("C0", "C1"):
             ths.append(("C", t == "C1"))
         else:
-            ths.append(("A", t[2] == "1", t[4] == "1", t[5:].replace("-", "")))
+            ths.append(("A", t[2] == "1", t[4] in "12", t[5:].replace("-", ""), t[4] == "2"))
     return parts[0] == "f1", parts[1] == "e1", ths
 
 
@@ -74,6 +74,10 @@ def oracle(cfg, sched, obs):
             kr = [k for k, p in evs if p == "D"]
             if ks:
                 sets.append((ks[0], kr[0] if kr else 10**9, t))
+            elif kr:
+                # request_reload returned without ever reaching the flag (no AfterSet arrival): it
+                # still is a request that has returned
+                sets.append((kr[0], kr[0], t))
         else:
             a = {"lock": evs[0][0], "check": None, "reset": None, "hand": None, "clear_step": None, "leftB": None}
             for j, (k, p) in enumerate(evs):
@@ -95,7 +99,7 @@ def oracle(cfg, sched, obs):
     if d.get("G"):
         for b in d["G"].split(","):
             g, k = b.split("@")
-            builds[int(g)] = (int(k.rstrip("f")), k.endswith("f"))
+            builds[int(g)] = (int(k.rstrip("fp")), k.endswith("f") or k.endswith("p"))
     got = {}
     for item in (d.get("A") or "").split(","):
         if not item:
@@ -264,7 +268,7 @@ def wfs_smoke(r):
 def run(r):
     r.rule = ("schedules = sequences of scheduling decisions (which thread runs from its yield point to its next one) enumerated by the "
               "Lean model over its enabled threads: ALL schedules (or, above a cap, a seeded sample) for 1-2 acquires x 0-2 requests (plain, and with one special acquire = every "
-              "combination of {freshness callback true} x {creator fails} x {creator script: none, request, two requests, switch fast on, switch fast on + request}), and for 3 acquires (one special, every position) x 0-1 requests with eager return; extra threads for the rest of the Notifier API: set_fast_reload(true/false) toggled between acquires with a request pending, set_callback(|| b) replacing the freshness callback, request_reload through the notifier clone the creator kept; sequential probes for dead notifiers and mutex blocking, with fast "
+              "combination of {freshness callback true} x {creator returns Err} x {creator script: none, request, two requests, switch fast on, switch fast on + request}, plus a PANICKING creator with/without callback and inner request), and for 3 acquires (one special, every position) x 0-1 requests with eager return; extra threads for the rest of the Notifier API: set_fast_reload(true/false) toggled between acquires with a request pending, set_callback(|| b) replacing the freshness callback, request_reload through the notifier clone the creator kept; sequential probes for dead notifiers and mutex blocking, with fast "
               "reload off/on; quick adds a seeded sample over the 3x3 box, thorough adds ALL eager-return schedules of every 3x(0..3) "
               "configuration and a larger sample at full granularity.  A schedule is non-trivial when at least one request returned "
               "before an acquire locked (an obligation of the property exists).")
@@ -299,10 +303,13 @@ def run(r):
         r.broken.append(b)
     # a step time-out can be caused by machine load: re-run (a few of) those schedules alone with a long time-out
     retried = 0
-    for (cfg, sched), obs in sorted(real.items()):
-        if obs.startswith("bad:timeout") and retried < 5:
+    timed_out = sorted(k for k, obs in real.items() if obs.startswith("bad:timeout"))
+    # few time-outs = load (retry them all, alone); many = systematic divergence (retry a handful)
+    for (cfg, sched) in (timed_out if len(timed_out) <= 60 else timed_out[:5]):
+        obs = real[(cfg, sched)]
+        if True:
             retried += 1
-            rc, out, err = r.harness(exe, ["one", cfg, sched], env={"C20_TIMEOUT_MS": "8000"})
+            rc, out, err = r.harness(exe, ["one", cfg, sched], env={"C20_TIMEOUT_MS": "20000"})
             f = out.strip().split("\t")
             if len(f) == 3:
                 real[(cfg, sched)] = f[2]
@@ -336,7 +343,7 @@ def run(r):
         r.hist["creator_calls"][parse_obs(obs).get("C", "?")] += 1
         for t in ths:
             if t[0] == "A":
-                r.hist["acquire_kind"][("cb " if t[1] else "") + ("fails " if t[2] else "") + ("script:" + t[3] if t[3] else "plain" if not (t[1] or t[2]) else "")] += 1
+                r.hist["acquire_kind"][("cb " if t[1] else "") + ("panics " if t[4] else "fails " if t[2] else "") + ("script:" + t[3] if t[3] else "plain" if not (t[1] or t[2]) else "")] += 1
         for what, site in fails:
             r.oracle_failure(case, what, site)
         if n_all % 3001 == 1:
